@@ -43,7 +43,7 @@ F['C12']['legs'] = [dict(driver='channel', profile='close', prop='close', tv='Ch
                   dict(driver='notifier', profile='main', prop='all', tv='NotifierTV', n=(40, 80, 1000, 3000),
                        mc_quick=[('NotifierMC', 'NotifierMC_quick')], mc_thorough=[('NotifierMC', 'NotifierMC_quick')]),
                   # WaitCond's watcher goroutine is gone once the call has returned (also for contexts nobody can cancel)
-                  dict(driver='waitcond', profile='main', prop='all', tv='WaitCondTV', n=(60, 80, 1000, 3000), mc_quick=[], mc_thorough=[])]
+                  dict(driver='waitcond', profile='excl', prop='all', tv='WaitCondTV', n=(60, 80, 1000, 3000), mc_quick=[], mc_thorough=[])]
 fam({'C13': ('main', 'all')},
     driver='channel', tv='ChannelTV', mc_quick=[('ChannelMC', 'ChannelMC')], mc_thorough=[('ChannelMC', 'ChannelMC_big')],
     n=(100, 300, 2000, 6000), gen=dict(spec='ChannelGEN', cfgs_quick=['ChannelGEN_quick'], cfgs_thorough=['ChannelGEN']))
